@@ -233,16 +233,17 @@ def check_wiring(report, facts, rule, compressed, doc_text):
             if nm != ('lower', ('tok', 0)) and nm != ('tok', 0):
                 report.fail(Finding(rule, 'parse_item', o.node, '{}: the mnemonic token does not reach the name field'.format(cls),
                                     line=o.node.lineno))
-            paren = any("'('" in c[0] and c[1] for c in o.path.conds)
-            # a path taken only for mnemonics of a named set (BASE_OFFSET_INSTRUCTIONS) applies to those only
+            paren = o.path.paren_form()
+            # a path taken only for mnemonics of a further named set (BASE_OFFSET_INSTRUCTIONS) applies to those only
             restrict = None
-            for c in o.path.conds:
-                if c[1] and c[2] is not None:
-                    for n in ast.walk(c[2]):
-                        if (isinstance(n, ast.Compare) and len(n.ops) == 1 and isinstance(n.ops[0], ast.In)
-                                and isinstance(n.comparators[0], ast.Name) and n.comparators[0].id in facts.sets
-                                and 'tokens[0]' in unparse(n.left)):
-                            restrict = facts.sets[n.comparators[0].id]
+            for ref in o.path.head_sets(True):
+                if ref == ('ref', tname):
+                    continue
+                vals = facts.sets.get(ref[1]) if ref[0] == 'ref' else (ref[1] if ref[0] == 'const' else None)
+                if vals is None and ref[0] == 'ref' and ref[1] in facts.tables:
+                    vals = set(facts.tables[ref[1]])
+                if vals is not None:
+                    restrict = set(vals) if restrict is None else restrict & set(vals)
             # route: encoder positional index -> token index
             route = []
             ok_route = True
@@ -253,6 +254,9 @@ def check_wiring(report, facts, rule, compressed, doc_text):
                     route.append((idx, attr, None, 'default'))
                     continue
                 tok, shape = operand_index(bound[param])
+                if shape == 'other':
+                    raise AnalysisError('parse_item: how the {} field of {} is filled is not understood: {} ({})'.format(
+                        attr, cls, bound[param], unparse(o.node).split('\n')[0]))
                 route.append((idx, attr, tok, shape))
             for m in mns:
                 if restrict is not None and m not in restrict:
